@@ -1,7 +1,7 @@
 """C18 — Linux discovery: leaf kernels on arbitrary inputs (file-system traversal of snapshots cannot be encoded: see OUTSIDE)."""
 SRC = "C18_linux_units.c"
 COMMON = dict(src=SRC, env=["vp_alloc.c", "vp_libc.c"], units=["hwloc/bitmap.c"], unwind=8, checks="safety+", object_bits=10, timeout=1500,
-              unwindset={"strchr.0": 10, "vp_strto.0": 8, "vp_strto.1": 12, "read.0": 10, "strlen.0": 10, "kernel_cpulist.0": 8, "kernel_cpulist.1": 8, "kernel_cpulist.2": 8, "kernel_cpulist.3": 66},
+              unwindset={"strchr.0": 10, "vp_strto.0": 8, "vp_strto.1": 12, "read.0": 10, "strlen.0": 10, "kernel_cpulist.0": 8, "kernel_cpulist.1": 8, "kernel_cpulist.2": 66, "kernel_cpulist.3": 66},
               stubs=["open/openat succeed, read delivers L symbolic bytes then EOF, close counted, page size 16 (the read buffer is a small exactly sized object)", "strtoul: env/vp_libc.c model"],
               assumptions=["allocation never fails"])
 HARNESSES = [
